@@ -40,14 +40,16 @@ HARNESSES = [
 ENCODED = ["Atom::new_inlined", "AtomCell::new_inlined", "AtomCell::new_char_inlined",
            "AtomCell::build_with", "AtomCell::get_name", "AtomCell::get_arity", "inlined_to_str",
            "Atom::flat_index", "Atom::is_inlined", "Atom::as_str (inline/static arms)",
-           "Atom::len", "<Atom as Ord>::cmp", "generated atom! table (static_atoms.rs)"]
+           "Atom::len", "<Atom as Ord>::cmp", "generated atom! table (static_atoms.rs)",
+           "AtomTable::build_with (MIR: the inline guard; the interned set is replaced only by a clone of "
+           "itself on growth and by clone + new atom on insertion)"]
 ASSUME = ["texts are ASCII non-NUL with 1-2 symbolic byte positions per harness on a fixed "
           "template (more symbolic bytes do not finish, DESIGN P23)",
           "S1: arcu thread-local epoch counter stub where as_str is reached",
           "quick tier: the order of atoms rests on the MIR fact Atom::cmp = str::cmp(as_str(a), as_str(b)) plus the K round trip; the direct K order harnesses (symbolic-length memcmp, slow) are thorough-only"]
 BOUNDS = "lengths 1..6; every scalar value for char atoms; every 49-bit index for cell packing"
-OUTSIDE = ("interned (dynamic) atoms: IndexSet + RCU + locks; AtomTable::build_with's inline test "
-           "(read only through the static table check); atom-producing builtins")
+OUTSIDE = ("interned (dynamic) atoms beyond the data flow of the set through growth and insertion: IndexSet "
+           "lookups, the RCU + lock protocol (concurrency), atom-producing builtins")
 
 
 def mpost(results):
